@@ -1,4 +1,99 @@
-import LecModel
-import LecGen
+/-
+  C20 — Forced metadata checks keep invalid fragments out of the decoded result.
+
+  `forced_is_filtered`   with force_metadata_checks, decode of any fragment list whose headers are
+                         acceptable equals plain decode of the sub-list of fragments that pass
+                         per-fragment validation (or EINSUFFFRAGS when fewer than k pass): an
+                         invalid fragment never takes part — neither in the fast path nor in the
+                         partition / backend decode;
+  `invalid_ignored`      removing a fragment that fails validation does not change the result;
+  `valid_within_tolerance`, `never_other_bytes`
+                         consequently (with C01 / C02 on the valid sub-list, which consists of
+                         genuine fragments of the stripe): original bytes if the valid fragments are
+                         within tolerance, otherwise an error; never other bytes.
+-/
+import LecProofs.Instances
+import LecProps.C01
+import LecProps.C02
 namespace LecProps.C20
+open Lec
+
+theorem forced_is_filtered (env : Env) (be : Backend) (i : Inst) (frags : List Bytes) (fragLen : Nat)
+    (hn : i.k ≤ frags.length) (hl : 80 ≤ fragLen) (hh : frags.any isInvalidHeader = false) :
+    decode env be i frags fragLen true =
+      (if (frags.filter (fun f => !isInvalidFragment env be i f)).length < i.k
+       then .error (.rc (-EINSUFFFRAGS))
+       else decode env be i (frags.filter (fun f => !isInvalidFragment env be i f)) fragLen false) :=
+  decode_forced_filter env be i frags fragLen hn hl hh
+
+theorem invalid_ignored (env : Env) (be : Backend) (i : Inst) (frags : List Bytes) (fragLen : Nat)
+    (f : Bytes) (hbad : isInvalidFragment env be i f = true)
+    (hn : i.k ≤ (frags.erase f).length) (hl : 80 ≤ fragLen) (hh : frags.any isInvalidHeader = false) :
+    decode env be i frags fragLen true = decode env be i (frags.erase f) fragLen true :=
+  decode_forced_ignores_invalid env be i frags fragLen f hbad hn hl hh
+
+/-- damaged stripe: every supplied fragment either is a genuine fragment of the stripe or fails
+    validation (payload bit flips under CRC32, re-sealed header edits of index / backend id /
+    version).  If the genuine ones are within tolerance the forced decode returns the input. -/
+theorem valid_within_tolerance (env : Env) (be : Backend) (i : Inst) (data : Bytes) (enc frags : List Bytes)
+    {tol : List Nat → Prop} {bsOK : Nat → Prop}
+    (hE : EncodeOK be i.k i.m bsOK) (hD : DecodeOK be i.k i.m tol bsOK)
+    (hbs : bsOK (blockSize i data.length)) (hok : FrontOK env i data.length)
+    (hc : be.compat i.beVer = true) (henc : encode env be i data = .ok enc)
+    (hh : frags.any isInvalidHeader = false)
+    (hdam : ∀ f ∈ frags, f ∈ enc ∨ isInvalidFragment env be i f = true)
+    (hgood : ∀ f ∈ frags, f ∈ enc → isInvalidFragment env be i f = false)
+    (htol : tol (missingOfStripe enc (frags.filter (fun f => !isInvalidFragment env be i f))))
+    (hmiss : (missingOfStripe enc (frags.filter (fun f => !isInvalidFragment env be i f))).length ≤ i.m)
+    (hn : i.k ≤ (frags.filter (fun f => !isInvalidFragment env be i f)).length) :
+    decode env be i frags (80 + blockSize i data.length) true = .ok data := by
+  have hlen : i.k ≤ frags.length := Nat.le_trans hn (List.length_filter_le _ _)
+  rw [forced_is_filtered env be i frags _ hlen (by omega) hh, if_neg (by omega)]
+  have hsub : ∀ f ∈ frags.filter (fun f => !isInvalidFragment env be i f), f ∈ enc := by
+    intro f hf
+    obtain ⟨hf1, hf2⟩ := List.mem_filter.mp hf
+    rcases hdam f hf1 with h | h
+    · exact h
+    · simp [h] at hf2
+  exact LecProps.C01.roundtrip env be i data enc _ hE hD hbs hok hc henc hsub htol hmiss hn false
+
+/-- … and whatever the damage, the result is the input or a negative error code. -/
+theorem never_other_bytes (env : Env) (be : Backend) (i : Inst) (data : Bytes) (enc frags : List Bytes)
+    {bsOK : Nat → Prop} (hE : EncodeOK be i.k i.m bsOK) (hS : DecodeSound be i.k i.m bsOK)
+    (hneg : ∀ d p ms b e, be.decode d p ms b = .error (.rc e) → e < 0)
+    (hbs : bsOK (blockSize i data.length)) (hok : FrontOK env i data.length)
+    (henc : encode env be i data = .ok enc)
+    (hh : frags.any isInvalidHeader = false) (hk : i.k ≤ frags.length)
+    (hdam : ∀ f ∈ frags, f ∈ enc ∨ isInvalidFragment env be i f = true) :
+    decode env be i frags (80 + blockSize i data.length) true = .ok data ∨
+    ∃ e, decode env be i frags (80 + blockSize i data.length) true = .error (.rc e) ∧ e < 0 := by
+  rw [forced_is_filtered env be i frags _ hk (by omega) hh]
+  split
+  · exact Or.inr ⟨_, rfl, by decide⟩
+  · have hsub : ∀ f ∈ frags.filter (fun f => !isInvalidFragment env be i f), f ∈ enc := by
+      intro f hf
+      obtain ⟨hf1, hf2⟩ := List.mem_filter.mp hf
+      rcases hdam f hf1 with h | h
+      · exact h
+      · simp [h] at hf2
+    exact LecProps.C02.decode_exact_or_error env be i data enc _ hE hS hneg hbs hok henc hsub false
+
+/-- non-vacuity: (2,1) with CRC32, the payload of data fragment 0 corrupted, all three supplied,
+    forced checks: the original bytes come back (the corrupted fragment is not used). -/
+example :
+    (let env : Env := { libver := 0x010604, legacy := false }
+     match encode env (rsBackend (genEntry 2) 2 1) (rsInst 2 1 2) [1, 2, 3, 4, 5] with
+     | .ok enc =>
+       let bad := (enc.getD 0 []).set 80 0xff
+       (match decode env (rsBackend (genEntry 2) 2 1) (rsInst 2 1 2) (bad :: enc.drop 1) 84 true,
+              decode env (rsBackend (genEntry 2) 2 1) (rsInst 2 1 2) (bad :: enc.drop 1) 84 false with
+        | .ok d, .ok d' => d == [1, 2, 3, 4, 5] && d' != [1, 2, 3, 4, 5]
+        | _, _ => false)
+     | .error _ => false) = true := by
+  decide +kernel
+
+#print axioms forced_is_filtered
+#print axioms invalid_ignored
+#print axioms valid_within_tolerance
+#print axioms never_other_bytes
 end LecProps.C20
